@@ -69,14 +69,13 @@ structure CondenseFlows where
   upNet : List Ty       -- what `UpFlows` (netFlows of the up flows) reports as produced
 deriving Repr, Inhabited, DecidableEq
 
-/-- condense.go: characterise (no invoke arguments), then the net flows of the classified members.
-    `none`: some member matches no registry entry (Condense returns that error). -/
-def condenseFlows (ti : TyInfo) (provs : List PDesc) : Option CondenseFlows :=
+/-- the flows of the collection when the types in `arrives` come from outside with every call -/
+def condenseFlowsWith (ti : TyInfo) (provs : List PDesc) (arrives : List Ty) : Option CondenseFlows :=
   match provs.reverse with
   | [] => none
   | last :: revInit =>
     let provs := (revInit.reverse ++ [{ last with required := true }])
-    match characterizeAll provs [] with
+    match characterizeAll provs arrives with
     | none => none
     | some (bi, ai) =>
       let cps := bi ++ ai
@@ -84,5 +83,21 @@ def condenseFlows (ti : TyInfo) (provs : List PDesc) : Option CondenseFlows :=
       some { downIn := (netFlows ti loose (cps.map CP.downFlows)).1,
              upOut := returnedToSurroundings (cps.map CP.upFlows),
              upNet := (netFlows ti loose (cps.map CP.upFlows)).2 }
+
+/-- what the collection leaves unresolved arrives from outside: those types are per-invocation
+    values for its members (a Cacheable member that consumes one is not static).  The set only
+    grows; repeat until stable. -/
+def condenseIter (ti : TyInfo) (provs : List PDesc) : Nat → List Ty → Option CondenseFlows
+  | 0, arrives => condenseFlowsWith ti provs arrives
+  | fuel + 1, arrives =>
+    match condenseFlowsWith ti provs arrives with
+    | none => none
+    | some f =>
+      if f.downIn.all arrives.contains then some f
+      else condenseIter ti provs fuel (arrives ++ f.downIn.filter fun t => !arrives.contains t)
+
+/-- condense.go: the flows Condense binds with.
+    `none`: some member matches no registry entry (Condense returns that error). -/
+def condenseFlows (ti : TyInfo) (provs : List PDesc) : Option CondenseFlows := condenseIter ti provs 32 []
 
 end Nject
